@@ -727,6 +727,7 @@ func (s *Sched) Release(wait time.Duration) []string {
 	defer func() { StatRelease += time.Since(t0) }()
 	rtStore32(&active, 0)
 	deadline := time.Now().Add(wait)
+	hard := time.Now().Add(5 * wait) // goroutines that are still runnable get longer: on a loaded machine they may simply not have had their turn
 	var survivors []string
 	blockedRounds := 0
 	for {
@@ -765,6 +766,10 @@ func (s *Sched) Release(wait time.Duration) []string {
 			break
 		}
 		if time.Now().After(deadline) {
+			if running && time.Now().Before(hard) {
+				time.Sleep(200 * time.Microsecond)
+				continue
+			}
 			if running {
 				fmt.Fprintf(os.Stderr, "VERIF-POISON goroutines of a finished execution keep running: %v\n", survivors)
 				os.Exit(5)
